@@ -732,7 +732,7 @@ struct Expect {
     dump: Vec<(String, Vec<Step>, Val)>,
 }
 
-#[derive(Clone, Debug)]
+#[derive(Clone, Debug, PartialEq, Eq, Hash)]
 enum Step {
     Idx(Vec<i32>),
     Field(String),
@@ -1655,6 +1655,256 @@ fn check_path_program(rep: &mut Report, pend: &mut Vec<Pending>, p: &PathProgram
     });
 }
 
+
+// ---------------------------------------------------------------------------------------------
+// family E: dynamic arrays (REDIM ... AS <type>, re-dimensioned with and without the type clause)
+// ---------------------------------------------------------------------------------------------
+
+#[derive(Clone, Copy, PartialEq, Eq, Debug)]
+enum RTy {
+    Leaf(LTy),
+    /// TYPE RT : K AS INTEGER : F AS STRING * 2 : L AS LONG : END TYPE
+    Record,
+}
+
+struct RedimProgram {
+    text: String,
+    lines: Vec<String>,
+    error: Option<i32>,
+    dump_name: String,
+    dump: Vec<(Vec<Step>, Variant)>,
+}
+
+/// A bound, spelled as a literal or through the run-time variable `N%` (= `n`).
+fn bound_text(rng: &mut Rng, b: i32, n: i32) -> String {
+    match rng.below(3) {
+        0 => b.to_string(),
+        1 if b == n => "N%".to_owned(),
+        _ => {
+            let d = b - n;
+            if d >= 0 { format!("N% + {}", d) } else { format!("N% - {}", -d) }
+        }
+    }
+}
+
+/// A numeric store whose conversion to the element type is visible: (statements, value after conversion).
+fn visible_numeric_store(rng: &mut Rng, target: &str, ty: LTy) -> (String, Variant) {
+    const FRACS: [f64; 6] = [0.125, 0.25, 0.375, 0.625, 0.75, 0.875];
+    match ty {
+        LTy::Int => {
+            let x = rng.range(-32000, 32000) as f64 + *rng.pick(&FRACS[..]);
+            (format!("{} = {}\n", target, x), convert_num(x, ty).unwrap())
+        }
+        LTy::Long => {
+            if rng.chance(1, 2) {
+                let x = rng.range(-2_000_000_000, 2_000_000_000) as f64 + *rng.pick(&FRACS[..]);
+                (format!("{} = {:.3}#\n", target, x), convert_num(x, ty).unwrap())
+            } else {
+                let x = rng.range(-500_000, 500_000) as f64 + *rng.pick(&FRACS[..]);
+                (format!("{} = {}\n", target, x), convert_num(x, ty).unwrap())
+            }
+        }
+        LTy::Sgl => {
+            if rng.chance(1, 2) {
+                // a LONG that is not a SINGLE: rounded to 24 significant bits
+                let v = (1i64 << 24) + 1 + 2 * rng.range(0, 1000);
+                (format!("VL& = {}\n{} = VL&\n", v, target), Variant::VSingle(v as f32))
+            } else {
+                let v = rng.range(-30000, 30000);
+                (format!("VI% = {}\n{} = VI%\n", v, target), Variant::VSingle(v as f32))
+            }
+        }
+        LTy::Dbl => {
+            let v = rng.range(-2_000_000_000, 2_000_000_000);
+            (format!("VL& = {}\n{} = VL&\n", v, target), Variant::VDouble(v as f64))
+        }
+        _ => unreachable!(),
+    }
+}
+
+fn gen_redim_program(rng: &mut Rng, rep: &mut Report) -> RedimProgram {
+    let rty = match rng.below(8) {
+        0 => RTy::Leaf(LTy::Int),
+        1 | 2 => RTy::Leaf(LTy::Long),
+        3 => RTy::Leaf(LTy::Sgl),
+        4 => RTy::Leaf(LTy::Dbl),
+        5 => RTy::Leaf(LTy::Str),
+        6 => RTy::Leaf(LTy::Fix(rng.range(1, 4) as usize)),
+        _ => RTy::Record,
+    };
+    let rank = rng.range(1, 2) as usize;
+    let n = rng.range(-5, 9) as i32;
+    let mut text = String::new();
+    if rty == RTy::Record {
+        text.push_str("TYPE RT\n  K AS INTEGER\n  F AS STRING * 2\n  L AS LONG\nEND TYPE\n");
+    }
+    text.push_str(&format!("N% = {}\n", n));
+    let (decl, dump_name) = match rty {
+        RTy::Leaf(t) => (t.decl(), format!("A{}", t.suffix())),
+        RTy::Record => ("RT".to_owned(), "A".to_owned()),
+    };
+    let mut lines: Vec<String> = vec![];
+    let mut error = None;
+    let mut dims: Dims = vec![];
+    let mut reference: HashMap<Vec<Step>, Variant> = HashMap::new();
+    let rounds = rng.range(2, 4);
+    let dynamic = !rng.chance(1, 8);
+    // what a location of the array is: (program text, steps, leaf type)
+    let locations = |dims: &Dims| -> Vec<(String, Vec<Step>, LTy)> {
+        let mut res = vec![];
+        for idx in enumerate_box(dims, 0) {
+            let it = idx.iter().map(|i| i.to_string()).collect::<Vec<_>>().join(", ");
+            match rty {
+                RTy::Leaf(t) => res.push((format!("A({})", it), vec![Step::Idx(idx)], t)),
+                RTy::Record => {
+                    for (f, t) in [("K", LTy::Int), ("F", LTy::Fix(2)), ("L", LTy::Long)] {
+                        res.push((format!("A({}).{}", it, f), vec![Step::Idx(idx.clone()), Step::Field(f.into())], t));
+                    }
+                }
+            }
+        }
+        res
+    };
+    for round in 0..rounds {
+        // (re-)dimension: same rank (the front end demands it), other bounds
+        let old_dims = dims.clone();
+        dims = (0..rank)
+            .map(|_| {
+                let ext = rng.range(1, if rank == 1 { 5 } else { 3 }) as i32;
+                let lb = n + rng.range(-6, 6) as i32;
+                (lb, lb + ext - 1)
+            })
+            .collect();
+        let spec = dims.iter().map(|(l, u)| format!("{} TO {}", bound_text(rng, *l, n), bound_text(rng, *u, n))).collect::<Vec<_>>().join(", ");
+        if round == 0 {
+            if dynamic {
+                text.push_str(&format!("REDIM A({}) AS {}\n", spec, decl));
+                rep.bump(&format!("program.redim.declared.{}", decl.replace(' ', "")));
+            } else {
+                // a DIM with run-time bounds (cannot be re-dimensioned: the front end rejects it)
+                text.push_str(&format!("DIM A({}) AS {}\n", spec, decl));
+                rep.bump("program.redim.dim-with-runtime-bounds");
+            }
+        } else if !dynamic {
+            dims = old_dims;
+            break;
+        } else if rng.chance(2, 3) {
+            text.push_str(&format!("REDIM A({})\n", spec));
+            rep.bump("program.redim.again-without-type");
+        } else {
+            text.push_str(&format!("REDIM A({}) AS {}\n", spec, decl));
+            rep.bump("program.redim.again-with-type");
+        }
+        reference.clear(); // REDIM starts from default values
+        // bounds
+        for d in 1..=rank {
+            text.push_str(&format!("PRINT LBOUND(A, {}); UBOUND(A, {})\n", d, d));
+            lines.push(format!("{}{}", fmt_num(dims[d - 1].0 as i64), fmt_num(dims[d - 1].1 as i64)).trim_end().to_owned());
+        }
+        // stores with a visible conversion
+        let locs = locations(&dims);
+        let n_stores = rng.range(1, locs.len() as i64 + 1);
+        for _ in 0..n_stores {
+            let (t, st, ty) = rng.pick(&locs[..]).clone();
+            match ty {
+                LTy::Str => {
+                    let w = format!("{}{}", rng.pick(&WORDS[..]), rng.below(100));
+                    text.push_str(&format!("{} = \"{}\"\n", t, w));
+                    reference.insert(st, Variant::VString(w));
+                }
+                LTy::Fix(k) => {
+                    let w = format!("{}{}", rng.pick(&WORDS[..]), rng.below(100));
+                    text.push_str(&format!("{} = \"{}\"\n", t, w));
+                    reference.insert(st, Variant::VString(ref_fix(&w.chars().collect::<Vec<_>>(), k).into_iter().collect()));
+                }
+                _ => {
+                    let (stmts, v) = visible_numeric_store(rng, &t, ty);
+                    text.push_str(&stmts);
+                    reference.insert(st, v);
+                }
+            }
+        }
+        // read back everything that prints without the float formatter
+        for (t, st, ty) in &locs {
+            let v = reference.get(st).cloned().unwrap_or(ty.default());
+            match (&v, ty) {
+                (Variant::VInteger(i), _) => {
+                    text.push_str(&format!("PRINT {}\n", t));
+                    lines.push(fmt_num(*i as i64).trim_end().to_owned());
+                }
+                (Variant::VLong(i), _) => {
+                    text.push_str(&format!("PRINT {}\n", t));
+                    lines.push(fmt_num(*i).trim_end().to_owned());
+                }
+                (Variant::VString(x), _) => {
+                    text.push_str(&format!("PRINT \"[\" + {} + \"]\"; LEN({})\n", t, t));
+                    lines.push(format!("[{}]{}", x, fmt_num(x.chars().count() as i64)).trim_end().to_owned());
+                }
+                _ => {}
+            }
+        }
+        // an element of the previous shape that is outside the new one is out of range now
+        if round > 0 && round == rounds - 1 && rng.chance(1, 3) {
+            if let Some(old) = enumerate_box(&old_dims, 0).into_iter().find(|i| !in_box(&dims, i)) {
+                let it = old.iter().map(|i| i.to_string()).collect::<Vec<_>>().join(", ");
+                match rty {
+                    RTy::Record => text.push_str(&format!("A({}).K = 1\n", it)),
+                    RTy::Leaf(t) if t.is_str() => text.push_str(&format!("A({}) = \"x\"\n", it)),
+                    RTy::Leaf(_) => text.push_str(&format!("A({}) = 1\n", it)),
+                }
+                text.push_str("PRINT \"not reached\"\n");
+                error = Some(9);
+                rep.bump("program.redim.tail-old-subscript");
+            }
+        }
+    }
+    let dump = locations(&dims).into_iter().map(|(_, st, ty)| {
+        let v = reference.get(&st).cloned().unwrap_or(ty.default());
+        (st, v)
+    }).collect();
+    RedimProgram { text, lines, error, dump_name, dump }
+}
+
+fn check_redim_program(rep: &mut Report, p: &RedimProgram) {
+    let run = run_prog(&p.text);
+    let want = match p.error {
+        None => "ok".to_owned(),
+        Some(9) => "error SubscriptOutOfRange".to_owned(),
+        Some(c) => format!("error code {}", c),
+    };
+    let got_lines: Vec<String> = run.lines.iter().map(|l| l.trim_end().to_owned()).collect();
+    let mut problem: Option<(&str, String, String)> = None;
+    if run.result != want {
+        problem = Some(("result", run.result.clone(), want));
+    } else if got_lines != p.lines {
+        let k = got_lines.iter().zip(p.lines.iter()).position(|(a, b)| a != b).unwrap_or(got_lines.len().min(p.lines.len()));
+        problem = Some((
+            "output",
+            format!("line {}: {:?} ({} lines)", k, got_lines.get(k), got_lines.len()),
+            format!("line {}: {:?} ({} lines)", k, p.lines.get(k), p.lines.len()),
+        ));
+    } else {
+        for (st, v) in &p.dump {
+            let got = run.vars.iter().find(|(n, _)| *n == p.dump_name).and_then(|(_, a)| resolve(a, st)).map(show_variant);
+            let want_s = show_variant(v);
+            if got.as_deref() != Some(want_s.as_str()) {
+                problem = Some(("final-value", format!("{}{:?} = {:?}", p.dump_name, st, got), want_s));
+                break;
+            }
+        }
+    }
+    if let Some((what, got, want)) = problem {
+        rep.fail(Failure {
+            kind: Kind::ImplVsProperty,
+            signature: format!("program:redim:{}", what),
+            input: p.text.clone(),
+            implementation: got,
+            expected: want,
+            note: "a re-dimensioned array keeps its element type: what is read back is the stored value converted to the declared element type".into(),
+        });
+    }
+}
+
 // ---------------------------------------------------------------------------------------------
 
 fn main() {
@@ -1827,6 +2077,27 @@ fn main() {
         check_fix_program(&mut rep, &mut pend, &p);
     }
     flush(&mut rep, &mut pend);
+    let n_e = if thorough { 3000 } else { 400 };
+    for k in 0..n_e {
+        let p = gen_redim_program(&mut rng, &mut rep);
+        rep.case(Some(format!("pe{}", p.text)));
+        if k == 0 {
+            rep.sample(J::s(p.text.clone()));
+        }
+        check_redim_program(&mut rep, &p);
+    }
+    // the coordinator's example verbatim
+    {
+        let p = RedimProgram {
+            text: "REDIM A(1 TO 3) AS LONG\nA(2) = 2.6\nPRINT A(2)\nREDIM A(-2 TO 5)\nPRINT LBOUND(A); UBOUND(A)\nA(-2) = 2.6\nA(5) = 100000.4\nPRINT A(-2); A(-1); A(5)\n".into(),
+            lines: vec![" 3".into(), "-2  5".into(), " 3  0  100000".into()],
+            error: None,
+            dump_name: "A&".into(),
+            dump: vec![(vec![Step::Idx(vec![-2])], Variant::VLong(3)), (vec![Step::Idx(vec![5])], Variant::VLong(100000))],
+        };
+        rep.case(Some(format!("pe{}", p.text)));
+        check_redim_program(&mut rep, &p);
+    }
     let n_d = if thorough { 3000 } else { 300 };
     for k in 0..n_d {
         let p = gen_path_program(&mut rng, &mut rep);
